@@ -17,7 +17,7 @@ SPEC = {
           sym="which operation, old/new value, max level before"),
         H("c12::c12_reach", kind="reach", desc="vacuity twin"),
     ],
-    "caps": {"jobs": 2, "mem_gb": 10, "quick_harness_timeout": 400, "thorough_harness_timeout": 1200},
+    "caps": {"jobs": 6, "mem_gb": 12, "quick_harness_timeout": 400, "thorough_harness_timeout": 1200},
     "functions": [
         "tracing_subscriber::reload::{Subscriber::new, Subscriber::handle, Handle::{reload, modify, clone_current, with_current, clone}, Error::{is_dropped, is_poisoned}}",
         "impl Subscribe<C> for reload::Subscriber<S>: register_callsite, enabled, max_level_hint; impl Filter<C> for reload::Subscriber<S>: callsite_enabled, enabled, max_level_hint",
